@@ -106,7 +106,10 @@ type rateLimiter struct {
 	limitStoreMap  map[int]_interface.LimitStore
 
 	upstreamController controller.UpstreamController
-	upstreamLock       map[string]*sync.Mutex
+	// upstreamLock holds one mutex per upstream; the map itself is read by every status report and
+	// written by the cluster handler, so it has its own lock
+	upstreamLock     map[string]*sync.Mutex
+	upstreamLockLock sync.Mutex
 }
 
 func (r *rateLimiter) Run(stopCh <-chan struct{}) {
@@ -147,7 +150,7 @@ func (r *rateLimiter) UpdateRateLimitConditionStatus(upstream string, condition 
 		return nil, err
 	}
 
-	mutex := r.upstreamLock[condition.Spec.UpstreamCluster]
+	mutex := r.getUpstreamLock(condition.Spec.UpstreamCluster, false)
 	if mutex == nil {
 		return nil, fmt.Errorf("interval error: upstreamLock not exist")
 	}
@@ -397,10 +400,7 @@ func (r *rateLimiter) UpstreamConditionHandler(cluster *proxyv1alpha1.UpstreamCl
 		return err
 	}
 
-	if _, ok := r.upstreamLock[cluster.Name]; !ok {
-		r.upstreamLock[cluster.Name] = &sync.Mutex{}
-	}
-	mutex := r.upstreamLock[cluster.Name]
+	mutex := r.getUpstreamLock(cluster.Name, true)
 	mutex.Lock()
 	defer mutex.Unlock()
 
@@ -468,6 +468,29 @@ func (r *rateLimiter) getLimitStoreForShard(shardId int) _interface.LimitStore {
 	r.limitStoreLock.RLock()
 	defer r.limitStoreLock.RUnlock()
 	return r.limitStoreMap[shardId]
+}
+
+// limitStores returns the stores of the shards led now. The store map is modified when leadership
+// changes, so the periodic cleanups must not range over it directly.
+func (r *rateLimiter) limitStores() []_interface.LimitStore {
+	r.limitStoreLock.RLock()
+	defer r.limitStoreLock.RUnlock()
+	stores := make([]_interface.LimitStore, 0, len(r.limitStoreMap))
+	for _, limitStore := range r.limitStoreMap {
+		stores = append(stores, limitStore)
+	}
+	return stores
+}
+
+func (r *rateLimiter) getUpstreamLock(upstream string, create bool) *sync.Mutex {
+	r.upstreamLockLock.Lock()
+	defer r.upstreamLockLock.Unlock()
+	mutex, ok := r.upstreamLock[upstream]
+	if !ok && create {
+		mutex = &sync.Mutex{}
+		r.upstreamLock[upstream] = mutex
+	}
+	return mutex
 }
 
 func (r *rateLimiter) startLeading(shardId int) {
@@ -563,7 +586,7 @@ func (r *rateLimiter) cleanupTimeoutClient() {
 			instance := c
 			reason := fmt.Sprintf("instance %s last heartbeat since %v", instance, lastHeartbeat.Format(time.RFC3339Nano))
 			go func() {
-				for _, limitStore := range r.limitStoreMap {
+				for _, limitStore := range r.limitStores() {
 					// The identity of a gateway (<client-id-prefix>-<pid>-<random>, the prefix often being
 					// host:port) need not be a valid label value. Set.AsSelector() answers an invalid value with
 					// the selector that matches EVERYTHING, which would delete the conditions of all instances.
@@ -603,7 +626,7 @@ func (r *rateLimiter) cleanupUnknownCondition() {
 	// clean up when client not found
 	clientsToDelete := map[string]bool{}
 	upstreamsToDelete := map[string]bool{}
-	for _, limitStore := range r.limitStoreMap {
+	for _, limitStore := range r.limitStores() {
 		conditions := limitStore.List(labels.Everything())
 		for _, condition := range conditions {
 			if expectClients[condition.Spec.Instance] {
@@ -622,13 +645,13 @@ func (r *rateLimiter) cleanupUnknownCondition() {
 	}
 
 	for instance, _ := range clientsToDelete {
-		for _, limitStore := range r.limitStoreMap {
+		for _, limitStore := range r.limitStores() {
 			r.deleteGlobalFlowControl(limitStore, instance, fmt.Sprintf("client %s not exist", instance))
 		}
 	}
 
 	for upstream, _ := range upstreamsToDelete {
-		for _, limitStore := range r.limitStoreMap {
+		for _, limitStore := range r.limitStores() {
 			err := limitStore.DeleteUpstream(upstream)
 			if err != nil {
 				klog.Errorf("Delete upstream %v condition err: %v", upstream, err)
